@@ -16,6 +16,8 @@ pub enum LoadSel {
     Current,
     Prev,
     Missing,
+    /// the OLDEST checkpoint still on disk (with a gap in the generations a newer one exists beside it)
+    Oldest,
 }
 
 #[derive(Clone, Debug, Serialize, Deserialize, PartialEq)]
@@ -216,7 +218,7 @@ impl Scenario for Lru {
         "exploration"
     }
     fn rule(&self) -> &'static str {
-        "Enumerated arm first: run indices 0..N of every batch are, in order and independent of the seed, ALL histories of length 1..L (quick L=3: 15,657 cases; thorough L=5: 4,525,791 cases) over a 17-symbol alphabet {touch k0-k3, remove k0-k3, evict_tail, evict_to_target(1 or 2 entries), bump_generation, checkpoint, load latest, run_cycle, restart, reset} for capacities 1, 2, 3 and 4 non-zero keys (counter enumerated_histories). Then seeded histories (1-30 ops, mostly 3-12) over touch/remove/evict_tail/evict_to_target/bump_generation/checkpoint_to_disk/load_from_disk/run_cycle/shutdown/reset/restart (+ in one run in five a FILL = touches of capacity-1 ... 2 x capacity fresh keys in the first half of the history, in one run in twelve a COLD restart = a new manager that loads nothing) on the real LruManager with real checkpoint files in a per-run tmpfs sandbox; capacity 1-4 (a few up to 64; one seeded run in 400 with a table of 1 000 ... 1 000 000 slots, whose checkpoint file runs to 20 MiB), 4-6 keys, the all-zero key in ~30% of runs; run_cycle limits from 0 / one entry / capacity-1 entries up to (one cycle in three) 2^32 average-sized entries and just above, powers of two up to 2^62, u64::MAX, average sizes up to 2^32. After EVERY op len/contains/for_each_entry order are compared with a textbook LRU. A run is non-trivial if it executed >= 2 state-changing ops; distinct = distinct hash of (config, ops, observed results)."
+        "Enumerated arm first: run indices 0..N of every batch are, in order and independent of the seed, ALL histories of length 1..L (quick L=3: 15,657 cases; thorough L=5: 4,525,791 cases) over a 17-symbol alphabet {touch k0-k3, remove k0-k3, evict_tail, evict_to_target(1 or 2 entries), bump_generation, checkpoint, load latest, run_cycle, restart, reset} for capacities 1, 2, 3 and 4 non-zero keys (counter enumerated_histories). Then seeded histories (1-30 ops, mostly 3-12) over touch/remove/evict_tail/evict_to_target/bump_generation/checkpoint_to_disk/load_from_disk (of the latest, the current, the previous, the OLDEST checkpoint on disk or a missing one; which older file a checkpoint may delete is decided by bumps and restarts, never by a load)/run_cycle/shutdown/reset/restart (one run in eight is generation-heavy: >= 9 ops, three quarters of them bump / checkpoint / load, so that several checkpoint files exist side by side) (+ in one run in five a FILL = touches of capacity-1 ... 2 x capacity fresh keys in the first half of the history, in one run in twelve a COLD restart = a new manager that loads nothing) on the real LruManager with real checkpoint files in a per-run tmpfs sandbox; capacity 1-4 (a few up to 64; one seeded run in 400 with a table of 1 000 ... 1 000 000 slots, whose checkpoint file runs to 20 MiB), 4-6 keys, the all-zero key in ~30% of runs; run_cycle limits from 0 / one entry / capacity-1 entries up to (one cycle in three) 2^32 average-sized entries and just above, powers of two up to 2^62, u64::MAX, average sizes up to 2^32. After EVERY op len/contains/for_each_entry order are compared with a textbook LRU. A run is non-trivial if it executed >= 2 state-changing ops; distinct = distinct hash of (config, ops, observed results)."
     }
     fn assumptions(&self) -> Vec<&'static str> {
         vec![
@@ -300,6 +302,13 @@ impl Scenario for Lru {
                 *wi = 0;
             }
         }
+        // one run in eight is about generations: mostly bumps, checkpoints and loads (two checkpoint files side by
+        // side take two bumps between two checkpoints; what a later checkpoint deletes then matters)
+        let gen_heavy = rng.chance(1, 8);
+        if gen_heavy {
+            w = [12, 1, 1, 1, 25, 25, 25, 8, 1, 1, 0];
+        }
+        let nops = if gen_heavy { nops.max(9) } else { nops };
         let mut ops = Vec::with_capacity(nops);
         for _ in 0..nops {
             let avgs = [0u64, 1, 100];
@@ -322,11 +331,12 @@ impl Scenario for Lru {
                 }
                 4 => Op::Bump,
                 5 => Op::Checkpoint,
-                6 => Op::Load(match rng.below(10) {
+                6 => Op::Load(match rng.below(12) {
                     0..=4 => LoadSel::Latest,
                     5..=6 => LoadSel::Current,
                     7..=8 => LoadSel::Prev,
-                    _ => LoadSel::Missing,
+                    9 => LoadSel::Missing,
+                    _ => LoadSel::Oldest,
                 }),
                 7 | 10 => {
                     // one cycle in three takes its arguments from the wide end of the u64 range: limits at and
@@ -390,6 +400,7 @@ impl Scenario for Lru {
         }
         let mut ext_evicted = false; // an eviction through the public eviction API removed >= 1 entry
         let mut reloaded = false;
+        let mut m_prev = lru.prev_generation();
         let mut fills_done = 0u32;
         // the all-zero key has been in the tracker at some point of this history
         let mut zero_was_live = false;
@@ -409,6 +420,11 @@ impl Scenario for Lru {
         }
 
         for (i, op) in case.ops.iter().enumerate() {
+            // which older checkpoint the next checkpoint may delete is decided by bumps (and restarts), never by a
+            // load: the value seen before a load_from_disk stays the model's across it
+            if i > 0 && !matches!(case.ops[i - 1], Op::Load(_)) {
+                m_prev = lru.prev_generation();
+            }
             let kind = op_kind(op);
             ctx.obs(kind.as_bytes());
             let mut mutating = true;
@@ -462,7 +478,7 @@ impl Scenario for Lru {
                 }
                 Op::Checkpoint => {
                     let g = lru.generation();
-                    let p = lru.prev_generation();
+                    let p = m_prev;
                     let r = rt.block_on(lru.checkpoint_to_disk());
                     ctx.event(|| json!({"k":"op","op":"checkpoint_to_disk","gen":g,"prev":p,"ok":r.is_ok()}));
                     if let Err(e) = r {
@@ -481,6 +497,7 @@ impl Scenario for Lru {
                         LoadSel::Current => lru.generation(),
                         LoadSel::Prev => lru.prev_generation(),
                         LoadSel::Missing => 77_777,
+                        LoadSel::Oldest => m.disk.keys().next().copied().unwrap_or(9_999),
                     };
                     let r = rt.block_on(lru.load_from_disk(g));
                     ctx.obs(&[r.is_ok() as u8]);
